@@ -233,4 +233,52 @@ theorem C08_imlfn_fixed_unique (e0 e1 e2 e3 phi phi' : ℝ) (hdom : 2 * |e1| + 4
   have := C08_imlfn_stationary (mlfn e0 e1 e2 e3 phi) e0 e1 e2 e3 phi' hd h
   exact (mlfn_strictMono e0 e1 e2 e3 hdom).injective this
 
+/-- **eqdc chain** (ellipsoid, both cone signs; `R = a (g − mlfn φ)` has the sign of `ns`):
+inverse ∘ forward = `(λ, imlfn (mlfn φ))`. -/
+theorem eqdc_chain (c : EqdcC ℝ) (hs : c.sr.sphere = false) (ha : 0 < c.sr.a)
+    (lon lat : ℝ)
+    (sgn : (0 < c.ns ∧ mlfn c.e0 c.e1 c.e2 c.e3 lat < c.g) ∨ (c.ns < 0 ∧ c.g < mlfn c.e0 c.e1 c.e2 c.e3 lat))
+    (hlon : |lon| ≤ sPi) (hdl : |lon - c.sr.long0| ≤ sPi)
+    (h1 : -π < c.ns * (lon - c.sr.long0)) (h2 : c.ns * (lon - c.sr.long0) ≤ π) :
+    (fwdEqdc c lon lat).bind (fun q => invEqdc c q.1 q.2) =
+      (imlfn (mlfn c.e0 c.e1 c.e2 c.e3 lat) c.e0 c.e1 c.e2 c.e3).map (fun phi => (lon, phi)) := by
+  set ml := mlfn c.e0 c.e1 c.e2 c.e3 lat with hml
+  set R := c.sr.a * (c.g - ml) with hR
+  have ex : c.sr.x0 + R * sin (c.ns * (lon - c.sr.long0)) - c.sr.x0 = R * sin (c.ns * (lon - c.sr.long0)) := by ring
+  have ey : c.rh - (c.sr.y0 + c.rh - R * cos (c.ns * (lon - c.sr.long0))) + c.sr.y0
+      = R * cos (c.ns * (lon - c.sr.long0)) := by ring
+  have hn0 : c.ns ≠ 0 := by rcases sgn with h | h <;> [exact h.1.ne'; exact h.1.ne]
+  have e1 : c.sr.long0 + c.ns * (lon - c.sr.long0) / c.ns = lon := by field_simp; ring
+  have e2 : c.g - R / c.sr.a = ml := by rw [hR]; field_simp; ring
+  simp only [fwdEqdc, invEqdc, hs, if_false, Bool.false_eq_true, adjustLon_id hdl, Except.bind, bind, pure,
+    Except.pure, ge_real, ne_real, sin_real, cos_real, sqrt_real, atan2_real, lit_zero, lit_one, ← hml, ← hR, ex, ey]
+  rcases sgn with ⟨hn, hg⟩ | ⟨hn, hg⟩
+  · have hr : 0 < R := mul_pos ha (by linarith)
+    have hsq := sqrt_polar R (c.ns * (lon - c.sr.long0)) hr
+    have harg := arg_polar R (c.ns * (lon - c.sr.long0)) hr h1 h2
+    simp only [hn.le, decide_true, if_true, hsq, one_mul, harg, hr.ne', decide_false, Bool.not_false, e1, e2,
+      adjustLon_id hlon]
+    cases imlfn ml c.e0 c.e1 c.e2 c.e3 <;> rfl
+  · have hr : R < 0 := mul_neg_of_pos_of_neg ha (by linarith)
+    have hsq := sqrt_polar_neg R (c.ns * (lon - c.sr.long0)) hr
+    have harg := arg_polar_neg R (c.ns * (lon - c.sr.long0)) hr h1 h2
+    have hn' : ¬ (0 ≤ c.ns) := not_le.mpr hn
+    simp only [hn', decide_false, if_false, Bool.false_eq_true, hsq, neg_neg, harg, hr.ne, Bool.not_false, if_true,
+      e1, e2, adjustLon_id hlon]
+    cases imlfn ml c.e0 c.e1 c.e2 c.e3 <;> rfl
+
+/-- **eqdc_inv_exact** (ellipsoid, `e0` dominating): if `imlfn` stops where its update is exactly zero,
+inverse(forward(λ, φ)) = (λ, φ). -/
+theorem C08_eqdc_inv_exact (c : EqdcC ℝ) (hs : c.sr.sphere = false) (ha : 0 < c.sr.a)
+    (hdom : 2 * |c.e1| + 4 * |c.e2| + 6 * |c.e3| < c.e0) (lon lat lat' : ℝ)
+    (sgn : (0 < c.ns ∧ mlfn c.e0 c.e1 c.e2 c.e3 lat < c.g) ∨ (c.ns < 0 ∧ c.g < mlfn c.e0 c.e1 c.e2 c.e3 lat))
+    (hlon : |lon| ≤ sPi) (hdl : |lon - c.sr.long0| ≤ sPi)
+    (h1 : -π < c.ns * (lon - c.sr.long0)) (h2 : c.ns * (lon - c.sr.long0) ≤ π)
+    (hconv : imlfn (mlfn c.e0 c.e1 c.e2 c.e3 lat) c.e0 c.e1 c.e2 c.e3 = .ok lat')
+    (hstat : imlfnStep (mlfn c.e0 c.e1 c.e2 c.e3 lat) c.e0 c.e1 c.e2 c.e3 lat' = 0) :
+    (fwdEqdc c lon lat).bind (fun q => invEqdc c q.1 q.2) = .ok (lon, lat) := by
+  rw [eqdc_chain c hs ha lon lat sgn hlon hdl h1 h2, hconv,
+    C08_imlfn_fixed_unique c.e0 c.e1 c.e2 c.e3 lat lat' hdom hstat]
+  rfl
+
 end GeomV.C08
